@@ -1,9 +1,15 @@
 -------------------------- MODULE MC_VersionedZone --------------------------
-(* Bounded instance of VersionedZone for exhaustive model checking. *)
+(* Bounded instance of VersionedZone for exhaustive model checking: at most MaxCommits
+   commits and MaxDepth calls per history.  The call counter is a variable (and not
+   TLCGet("level")) so that the explored state space does not depend on how TLC's worker
+   threads interleave. *)
 EXTENDS VersionedZone
 
 CONSTANTS MaxCommits,   \* bound on committed versions
           MaxDepth      \* bound on the length of a history
+
+VARIABLE steps
+mcvars == <<vars, steps>>
 
 C(s, it) == [serial |-> s, items |-> it]
 A1 == <<"a", 1>>
@@ -12,9 +18,13 @@ B1 == <<"b", 1>>
 MCContentsSmall == {C(1, {}), C(1, {A1}), C(2, {A1})}
 MCContents == {C(1, {}), C(1, {A1}), C(2, {A1}), C(2, {A1, A2, B1}), C(3, {B1})}
 
-Bound == Len(allIds) <= MaxCommits + 1 /\ TLCGet("level") <= MaxDepth
+MCInit == Init /\ steps = 0
+MCNext == steps < MaxDepth /\ Next /\ steps' = steps + 1
+MCSpec == MCInit /\ [][MCNext]_mcvars
 
-(* reachability witnesses: each must be VIOLATED (checked in a separate run) *)
-Vac_PrunedWhilePinned == ~(Len(versions) >= 3 /\ DOMAIN readers # {} /\ Head(versions).id > 1)
+Bound == Len(allIds) <= MaxCommits + 1
+
+(* reachability witnesses: each must be VIOLATED (checked in separate runs) *)
+Vac_PrunedWhilePinned == ~(Len(versions) >= 2 /\ DOMAIN readers # {} /\ Head(versions).id > 1 /\ policy[1] = "default")
 Vac_PolicyKeeps == ~(Len(versions) >= 2 /\ DOMAIN readers = {} /\ policy[1] = "custom")
 =============================================================================
